@@ -1,4 +1,6 @@
 import Mochi.Model.Broker
+import Mochi.Lemmas.BrokerWill
+import Mochi.Props.C03
 /-!
 # C16 — Will messages are published exactly when the protocol requires
 
@@ -80,5 +82,122 @@ example :
        .drop 1,
        .connect 2 { ver := 5, clean := false, id := [99, 49], sei := some 100 }]
     s.willDelayed.length = 0 := by decide
+
+end Mochi.Broker
+
+/-! ## C16 for every sequential history: connection loss -/
+namespace Mochi.Broker
+open Mochi.Topics
+
+/-- what a will publication writes: the fan-out of the will message (`publishToSubscribers`, in the state with the
+    retained store updated if the will is retained), then the event that marks the publication -/
+def willOutputs (s : Server) (c : Client) : List Out :=
+  (publishToSubscribers (retainedState s (willMsg c)) (willMsg c)).2 ++ [willEvent c.id]
+
+/-- the invariants of a reachable state carry over to the state in which the handler learns that the peer is gone -/
+theorem peerLost_inv {s : Server} (hs : SyncInv s) (hw : WF s) (hcm : ConnMap s) (i : Nat) :
+    SyncInv (peerLost s i) ∧ WF (peerLost s i) ∧ ConnMap (peerLost s i) :=
+  ⟨hs.of_quiet ((Quiet.refl s).mod i _ (by qc_rfl)), hw.of_good ((Good.refl s).mod i _ (by cw_rfl)),
+    hcm.of_ck (CK.mod s i _ (fun _ => rfl) (fun _ => rfl))⟩
+
+/-- **C16, connection loss (item 1).**  `s` reachable by a sequential history; `c` = client object `i`, a network
+    client whose handler is in its read loop (not stopped); the op is the loss of `c`'s connection.  Then:
+
+    * will flag set and no will delay: the outputs of the op are EXACTLY the fan-out of the will message followed by
+      the will event (`willOutputs`; the close of the connection itself is not in the projection of a `drop`: the peer
+      closed it); the will flag of the object is cleared and the object is stopped;
+    * will flag set and a will delay: nothing is written, the will is registered in `willDelayed` under the client id,
+      stamped with the time it becomes due;
+    * no will: nothing is written, `willDelayed` is unchanged;
+    * hence: the will event appears iff flag ∧ delay = 0, and a PUBLISH is written to anybody only then. -/
+theorem C16_drop_publishes_will_iff (caps : Caps) (s : Server) (hr : ReachSeq caps s) (i : Nat)
+    (hi : i < s.objs.length) (hin : (getObj s i).inline = false) (hst : (getObj s i).stopped = false) :
+    let c := getObj s i
+    let r := step s (.drop c.conn)
+    (c.will.flag = true ∧ c.will.delay = 0 → r.2 = willOutputs (peerLost s i) c) ∧
+    (c.will.flag = true ∧ c.will.delay > 0 →
+      r.2 = [] ∧ r.1.willDelayed = assocSet s.willDelayed c.id (delayedWillMsg c)) ∧
+    (c.will.flag = false → r.2 = [] ∧ r.1.willDelayed = s.willDelayed) ∧
+    (willEvent c.id ∈ r.2 ↔ c.will.flag = true ∧ c.will.delay = 0) ∧
+    ((∃ n ver m me, Out.wrote n (.publish ver m me) ∈ r.2) → c.will.flag = true ∧ c.will.delay = 0) := by
+  intro c r
+  obtain ⟨_, hw, hcm, _⟩ := hr.inv
+  obtain ⟨e1, e2⟩ := step_drop_live s i hi hst hin (hcm i hi hin)
+  have eo := getObj_peerLost_self s i hi
+  have hwill : (getObj (peerLost s i) i).will = c.will := by rw [eo]
+  have hid : (getObj (peerLost s i) i).id = c.id := by rw [eo]
+  have hmsg := willMsg_peerLost s i hi
+  have now : c.will.flag = true ∧ c.will.delay = 0 → r.2 = willOutputs (peerLost s i) c := by
+    intro ⟨hf, hd⟩
+    show (step s (.drop (getObj s i).conn)).2 = _
+    rw [e1, sendLWT_now _ i (by rw [hwill]; exact hf) (by rw [hwill]; exact hd), hmsg, hid]
+    show List.filter _ (_ ++ _) = _
+    refine FanOut.filter_closed (FanOut.append (publishToSubscribers_fan _ (willMsg c) rfl) ?_) _
+    intro x hx
+    simp at hx
+    subst hx
+    rfl
+  have delayed : c.will.flag = true ∧ c.will.delay > 0 →
+      r.2 = [] ∧ r.1.willDelayed = assocSet s.willDelayed c.id (delayedWillMsg c) := by
+    intro ⟨hf, hd⟩
+    have e := sendLWT_delayed (peerLost s i) i (by rw [hwill]; exact hf) (by rw [hwill]; exact hd)
+    constructor
+    · show (step s (.drop (getObj s i).conn)).2 = _
+      rw [e1, e]; rfl
+    · show (step s (.drop (getObj s i).conn)).1.willDelayed = _
+      rw [e2, e, eo]; rfl
+  have nowill : c.will.flag = false → r.2 = [] ∧ r.1.willDelayed = s.willDelayed := by
+    intro hf
+    have e := sendLWT_noflag (peerLost s i) i (by rw [hwill]; exact hf)
+    constructor
+    · show (step s (.drop (getObj s i).conn)).2 = _
+      rw [e1, e]; rfl
+    · show (step s (.drop (getObj s i).conn)).1.willDelayed = _
+      rw [e2, e]; rfl
+  have cases3 : (c.will.flag = true ∧ c.will.delay = 0) ∨ r.2 = [] := by
+    by_cases hf : c.will.flag = true
+    · by_cases hd : c.will.delay = 0
+      · exact Or.inl ⟨hf, hd⟩
+      · exact Or.inr (delayed ⟨hf, Nat.pos_of_ne_zero hd⟩).1
+    · exact Or.inr (nowill (by simpa using hf)).1
+  refine ⟨now, delayed, nowill, ⟨fun h => ?_, fun h => ?_⟩, fun ⟨n, ver, m, me, h⟩ => ?_⟩
+  · rcases cases3 with h' | h'
+    · exact h'
+    · rw [h'] at h; cases h
+  · rw [now h]
+    exact List.mem_append_right _ List.mem_cons_self
+  · rcases cases3 with h' | h'
+    · exact h'
+    · rw [h'] at h; cases h
+
+/-- **C16, connection loss: WHO receives the will** (restricted as the delivery theorem of C03 is: QoS 0 after
+    shaping, a will topic that is non-empty and has no `#` level — will topics are not validated by the broker —, and no
+    shared subscription matching it; for share groups see `C06_delivery_exact_reach_partial`).  The outputs of the op
+    are `o ++ [will event]` where `o` is delivered exactly: a PUBLISH is written to connection `n` iff `n` is entitled
+    in the state in which the peer is marked gone (so never to the lost connection itself), once, and everything else
+    in `o` is an inline delivery. -/
+theorem C16_drop_will_receivers_partial (caps : Caps) (s : Server) (hr : ReachSeq caps s) (i : Nat)
+    (hi : i < s.objs.length) (hin : (getObj s i).inline = false) (hst : (getObj s i).stopped = false)
+    (hf : (getObj s i).will.flag = true) (hd : (getObj s i).will.delay = 0)
+    (hq : (getObj s i).will.qos = 0 ∨
+      ∀ cid sub, MatchingSub s.topics (getObj s i).will.topic cid sub → sub.qos = 0)
+    (hne : (getObj s i).will.topic ≠ []) (hnh : ∀ t ∈ splitLevels (getObj s i).will.topic, t ≠ [hash])
+    (hsh : (subscribers s.topics (getObj s i).will.topic).shared = []) :
+    ∃ o, (step s (.drop (getObj s i).conn)).2 = o ++ [willEvent (getObj s i).id] ∧
+      ∀ n, DeliversExactly (peerLost s i) (willMsg (getObj s i)) o n := by
+  obtain ⟨hs, hw, hcm, _⟩ := hr.inv
+  obtain ⟨ps, pw, pc⟩ := peerLost_inv hs hw hcm i
+  obtain ⟨is, iw, ic⟩ := retainedState_inv (willMsg (getObj s i)) ps pw pc
+  refine ⟨_, (C16_drop_publishes_will_iff caps s hr i hi hin hst).1 ⟨hf, hd⟩, fun n => ?_⟩
+  have hsh' : (subscribers (retainedState (peerLost s i) (willMsg (getObj s i))).topics
+      (willMsg (getObj s i)).topic).shared = [] :=
+    (retainedState_shared (peerLost s i) (willMsg (getObj s i)) ps.idx _ hne hnh).mpr hsh
+  obtain ⟨g1, g2, g3, g4⟩ := C03_delivery_exact_inv_partial _ is iw ic (willMsg (getObj s i)) rfl rfl
+    (hq.imp id (fun h cid sub hm => h cid sub
+      ((matchingSub_congr (retainedState_quiet (peerLost s i) _).plain _ cid sub).mp hm)))
+    hne hnh hsh' n
+  rw [entitledF03_retainedState] at g1 g2
+  rw [entitledSession_retainedState] at g2
+  exact ⟨g1, g2, g3, g4⟩
 
 end Mochi.Broker
